@@ -152,6 +152,133 @@ def flit(v):
     return py2lean.Tr().expr(ast.Constant(float(v)))
 
 
+# ---------------------------------------------------------------- the glue of the three loops, read from the AST
+
+class _Glue:
+    """A dedicated reader for the three pieces of glue of the frame machinery — the loop of `Orientation.convert_to`, the loop of
+    `Center.convert_to` (+ `Center._to_parent`) and `Frame.transform`.  Each is matched against the ONE statement shape it has today and
+    turned into a generic Lean term (Generated/FrameGlue.lean) the hand-written model is built from: which element a direct / a reverse
+    provider contributes, in which order the product / the sum is accumulated, what `Frame.transform` combines.  Any other shape raises
+    Untranslatable (the check then reports the translator as broken and widens the oracle)."""
+
+    def __init__(self):
+        self.ori, self.cen, self.frm = _src("frames", "orient.py"), _src("frames", "center.py"), _src("frames", "frames.py")
+
+    @staticmethod
+    def body(path, qual):
+        fn = py2lean.find_function(ast.parse(open(path).read()), qual)
+        return [st for st in fn.body if not (isinstance(st, ast.Expr) and isinstance(st.value, ast.Constant))]
+
+    @staticmethod
+    def u(node):
+        return ast.unparse(node)
+
+    def term(self, e, env):
+        """expression over the names of `env` with `@`, `+`, unary `-`, np.linalg.inv, np.asarray"""
+        src = self.u(e)
+        if src in env:
+            return env[src]
+        if isinstance(e, ast.BinOp) and isinstance(e.op, ast.MatMult):
+            return f"(mul {self.term(e.left, env)} {self.term(e.right, env)})"
+        if isinstance(e, ast.BinOp) and isinstance(e.op, ast.Add):
+            return f"(add {self.term(e.left, env)} {self.term(e.right, env)})"
+        if isinstance(e, ast.UnaryOp) and isinstance(e.op, ast.USub):
+            return f"(neg {self.term(e.operand, env)})"
+        if isinstance(e, ast.Call) and self.u(e.func) == "np.linalg.inv" and len(e.args) == 1 and not e.keywords:
+            return f"(inv {self.term(e.args[0], env)})"
+        if isinstance(e, ast.Call) and self.u(e.func) == "np.asarray" and len(e.args) == 1 and not e.keywords:
+            return self.term(e.args[0], env)
+        raise py2lean.Untranslatable(f"glue: expression `{src}` is not built from the known names with @, +, unary -, np.linalg.inv")
+
+    def loop(self, path, qual, var, init_src, steps_src, direct_call, reverse_call):
+        """the `for a, b in <steps>: if hasattr(self, direct): X = … elif hasattr(self, reverse): X = … else: raise; <accumulate>` loop:
+        returns (term of the direct branch, term of the reverse branch, accumulation statement)"""
+        stmts = self.body(path, qual)
+        inits = [st for st in stmts if isinstance(st, ast.Assign) and self.u(st.targets[0]) == var]
+        if len(inits) != 1 or self.u(inits[0].value) != init_src:
+            raise py2lean.Untranslatable(f"{qual}: `{var}` does not start as `{init_src}`")
+        loops = [st for st in stmts if isinstance(st, ast.For)]
+        if len(loops) != 1 or self.u(loops[0].target) != "(a, b)" or self.u(loops[0].iter) != steps_src or loops[0].orelse:
+            raise py2lean.Untranslatable(f"{qual}: no single `for a, b in {steps_src}` loop")
+        if not isinstance(stmts[-1], ast.Return) or self.u(stmts[-1].value) != var or stmts.index(loops[0]) != len(stmts) - 2:
+            raise py2lean.Untranslatable(f"{qual}: the loop is not followed by `return {var}`")
+        body = loops[0].body
+        if [self.u(st) for st in body[:2]] != ["direct = f'{a}_to_{b}'", "reverse = f'{b}_to_{a}'"]:
+            raise py2lean.Untranslatable(f"{qual}: direct / reverse are not `a_to_b` / `b_to_a`")
+        ifs = [st for st in body if isinstance(st, ast.If)]
+        if len(ifs) != 1 or len(body) != 4 or body[2] is not ifs[0]:
+            raise py2lean.Untranslatable(f"{qual}: loop body is not <names>; if/elif/else; <accumulate>")
+        top = ifs[0]
+        if self.u(top.test) != "hasattr(self, direct)" or len(top.orelse) != 1 or not isinstance(top.orelse[0], ast.If):
+            raise py2lean.Untranslatable(f"{qual}: first test is not hasattr(self, direct)")
+        el = top.orelse[0]
+        if self.u(el.test) != "hasattr(self, reverse)" or len(el.orelse) != 1 or not isinstance(el.orelse[0], ast.Raise):
+            raise py2lean.Untranslatable(f"{qual}: second test is not hasattr(self, reverse) / no raise in the else branch")
+        out = []
+        for br, call in ((top.body, direct_call), (el.body, reverse_call)):
+            if len(br) != 1 or not isinstance(br[0], ast.Assign) or len(br[0].targets) != 1:
+                raise py2lean.Untranslatable(f"{qual}: a branch is not one assignment")
+            out.append((self.u(br[0].targets[0]), self.term(br[0].value, {call: "E"})))
+        if out[0][0] != out[1][0]:
+            raise py2lean.Untranslatable(f"{qual}: the two branches assign different names")
+        return out[0][0], out[0][1], out[1][1], body[3]
+
+    def text(self):
+        # Orientation.convert_to
+        x, d, r, acc = self.loop(self.ori, "Orientation.convert_to", "m", "np.identity(6)", "self.steps(new_orient)",
+                                 "expand(*getattr(self, direct)(date))", "expand(*getattr(self, reverse)(date))")
+        if not (isinstance(acc, ast.Assign) and self.u(acc.targets[0]) == "m"):
+            raise py2lean.Untranslatable("Orientation.convert_to: the accumulation is not `m = …`")
+        upd = self.term(acc.value, {x: "M", "m": "m"})
+        # Center.convert_to
+        y, cd, cr, cacc = self.loop(self.cen, "Center.convert_to", "out", "np.zeros(6)", "self.node.steps(new_center)",
+                                    "getattr(self, direct)(date, orientation)", "getattr(self, reverse)(date, orientation)")
+        if not (isinstance(cacc, ast.AugAssign) and isinstance(cacc.op, ast.Add) and self.u(cacc.target) == "out"):
+            raise py2lean.Untranslatable("Center.convert_to: the accumulation is not `out += …`")
+        cupd = f"(add out {self.term(cacc.value, {y: 'o'})})"
+        # Center._to_parent: the last statement
+        tp = self.body(self.cen, "Center._to_parent")[-1]
+        if not isinstance(tp, ast.Return):
+            raise py2lean.Untranslatable("Center._to_parent: no final return")
+        tpt = self.term(tp.value, {"self.orientation.convert_to(date, orientation)": "m", "res": "res"})
+        # Frame.transform
+        ft = self.body(self.frm, "Frame.transform")
+        calls = {}
+        for st in ft:
+            if isinstance(st, ast.Assign) and isinstance(st.value, ast.Call) and self.u(st.targets[0]) in ("offset", "m"):
+                if st.value.keywords:
+                    raise py2lean.Untranslatable("Frame.transform: keyword arguments")
+                calls[self.u(st.targets[0])] = (self.u(st.value.func), [self.u(a) for a in st.value.args])
+        comb = [st for st in ft if isinstance(st, ast.Assign) and self.u(st.targets[0]) == "new_orb[:]"]
+        first = ft[0]
+        if set(calls) != {"offset", "m"} or len(comb) != 1 or self.u(first) != "new_orb = orbit.copy(form='cartesian')":
+            raise py2lean.Untranslatable("Frame.transform: not `new_orb = orbit.copy(form='cartesian')`; offset = …; m = …; new_orb[:] = …")
+        ct = self.term(comb[0].value, {"m": "m", "new_orb": "x", "offset": "off"})
+        q = lambda xs: "[" + ", ".join('"' + t + '"' for t in xs) + "]"
+        return ("/- GENERATED by harness/props/C02.py (_Glue) from beyond/frames/{orient,center,frames}.py — do not edit. -/\n"
+                "namespace BeyondVerif.Generated.Glue\n"
+                "/-- `Orientation.convert_to`, direct provider found: `" + x + " = expand(*getattr(self, direct)(date))` (E = the expanded provider value) -/\n"
+                f"def orientDirect {{α : Type}} (inv : α → α) (E : α) : α := {d}\n"
+                "/-- … reverse provider found -/\n"
+                f"def orientReverse {{α : Type}} (inv : α → α) (E : α) : α := {r}\n"
+                f"/-- the accumulation `{self.u(acc)}`, starting from `np.identity(6)` -/\n"
+                f"def orientUpdate {{α : Type}} (mul : α → α → α) (M m : α) : α := {upd}\n"
+                "/-- `Center.convert_to`, direct link found (E = what `<a>_to_<b>(date, orientation)` returned) -/\n"
+                f"def centreDirect {{β : Type}} (neg : β → β) (E : β) : β := {cd}\n"
+                "/-- … reverse link found -/\n"
+                f"def centreReverse {{β : Type}} (neg : β → β) (E : β) : β := {cr}\n"
+                f"/-- the accumulation `{self.u(cacc)}`, starting from `np.zeros(6)` -/\n"
+                f"def centreUpdate {{β : Type}} (add : β → β → β) (out o : β) : β := {cupd}\n"
+                f"/-- `Center._to_parent`: `{self.u(tp)}` -/\n"
+                f"def centreToParent {{α β : Type}} (mul : α → β → β) (m : α) (res : β) : β := {tpt}\n"
+                f"/-- `Frame.transform`: `{self.u(comb[0])}` -/\n"
+                f"def transformCombine {{α β : Type}} (mul : α → β → β) (add : β → β → β) (m : α) (x off : β) : β := {ct}\n"
+                "/-- the two calls of `Frame.transform`: (callee, arguments) of `offset = …` and of `m = …` -/\n"
+                f"def transformCalls : List (String × List String) := [(\"{calls['offset'][0]}\", {q(calls['offset'][1])}), (\"{calls['m'][0]}\", {q(calls['m'][1])})]\n"
+                "end BeyondVerif.Generated.Glue\n")
+
+
+
 def extract(ctx):
     """Generated/FrameFormulas{F,R}.lean: every closed-form formula of the frame providers, translated from the Python AST;
     Generated/OrientProviders.lean: which `A_to_B` methods class Orientation defines (source order)."""
@@ -189,8 +316,15 @@ def extract(ctx):
     parts.append(py2lean.translate_attr_assign(ori, "TopocentricOrientation.__init__", "_m", ["lat", "lon"], "topoMat", funcs=ROTS, mat3=True))
     parts.append(py2lean.translate_function(sta, "TopocentricFrame._geodetic_to_cartesian", ["lat", "lon", "alt"], "geodetic",
                                             consts={"Earth.r": flit(consts_mod.Earth.r), "Earth.e": flit(consts_mod.Earth.e)}))
-    ch = py2lean.instantiate(core.LEAN, "FrameFormulas", "\n".join(parts), "beyond/utils/matrix.py, beyond/frames/{iau1980,iau2010,orient,stations}.py",
+    # the local orbital frames (numpy vector code of beyond/frames/local.py): rows of to_qsw / to_tnw over the V3 / M3 of Mat3.tpl
+    loc = _src("frames", "local.py")
+    for fn_, ln_ in (("to_qsw", "lofQsw"), ("to_tnw", "lofTnw")):
+        parts.append(py2lean.translate_vec_function(loc, fn_, ln_).replace("M3.mk ", "M3.ofRows "))
+    ch = py2lean.instantiate(core.LEAN, "FrameFormulas", "\n".join(parts), "beyond/utils/matrix.py, beyond/frames/{iau1980,iau2010,orient,stations,local}.py",
                              imports=("Model.Mat3",))
+    # the glue: loops of Orientation.convert_to / Center.convert_to, Center._to_parent, Frame.transform
+    if core.write_if_changed(os.path.join(core.LEAN, "BeyondVerif", "Generated", "FrameGlue.lean"), _Glue().text()):
+        ch.append("Generated/FrameGlue.lean")
     # provider directions
     tree = ast.parse(open(ori).read())
     cls = py2lean.find_function(tree, "Orientation")
